@@ -94,6 +94,11 @@ type replay struct {
 	Seq   []uint16 `json:"seq,omitempty"`
 	NS    int64    `json:"unix_ns,omitempty"`
 	Ref   int64    `json:"ref_unix_ns,omitempty"`
+	// the conversion made just before the failing one (the result must not depend on it, but a replay has to
+	// be able to show that it does)
+	HavePrev bool  `json:"preceded_by_another_conversion,omitempty"`
+	PrevNS   int64 `json:"previous_unix_ns,omitempty"`
+	PrevRef  int64 `json:"previous_ref_unix_ns,omitempty"`
 }
 
 func runFailure(res *vsched.Result) string {
@@ -218,6 +223,9 @@ func replayFn(raw json.RawMessage) string {
 			}
 			_, _, _, msg = check64(rp.NS, rp.NS > 0, prev)
 		case "ntp32":
+			if rp.HavePrev {
+				_, _, _ = check32(rp.PrevNS, rp.PrevRef)
+			}
 			_, _, msg = check32(rp.NS, rp.Ref)
 		default:
 			msg = "bad replay kind " + rp.Kind
